@@ -1,5 +1,5 @@
 From Coq Require Import NArith ZArith.
 From GoMC Require Import Base.Dec Model.C01.
 Require Import ExtrOcamlBasic.
-Extraction "c01_model.ml" run_flat run_fast payload doc value_of dyn_of Decode dec_any dec_map dec_skip dec_struct0
+Extraction "c01_model.ml" run_flat run_fast decode_raw_fast payload doc value_of dyn_of Decode dec_any dec_map dec_skip dec_struct0
   dec_raw dec_snbt dec_text raw_string dec_dyn dec_ty marshal tree_of wfb val_ok Z.of_N N.of_nat.
